@@ -35,6 +35,20 @@ pub struct CompositeCase {
     /// cycle, 2 chain, 3 symmetric clique. Sizes up to 60: single connected components far beyond brute force.
     #[serde(default)]
     pub closed: Vec<(u8, u8)>,
+    /// Non-empty (and hub == 0): one more argument x is added that attacks nothing and is attacked by a set
+    /// of arguments of EVERY component, (mode, pick) per component, cycled: ONE connected component whose
+    /// extensions are still the products of the components' extensions, with x decided by a rule (see
+    /// `Reference::x_in`). mode 0: an arbitrary non-empty set of attackers; 1: the arguments attacked by one
+    /// chosen preferred extension; 2: the complement of one chosen stage (or preferred) extension. With modes
+    /// 1 and 2 x belongs to very few of the (possibly thousands of) product extensions.
+    #[serde(default)]
+    pub gate: Vec<(u8, u16)>,
+}
+
+impl CompositeCase {
+    pub fn gated(&self) -> bool {
+        self.hub == 0 && !self.gate.is_empty()
+    }
 }
 
 /// The graph of a closed-form component.
@@ -116,6 +130,9 @@ pub fn all_comps(case: &CompositeCase) -> Vec<AbsGraph> {
     if case.hub > 0 {
         v.push(AbsGraph { n: 2, att: vec![(0, 1)] });
     }
+    if case.gated() {
+        v.push(AbsGraph { n: 1, att: vec![] });
+    }
     v
 }
 
@@ -173,26 +190,62 @@ pub fn attack_nodes(case: &CompositeCase) -> Vec<(usize, usize)> {
             }
         }
     }
+    if case.gated() {
+        let x = lay.offs[comps.len() - 1];
+        for (c, m) in gate_attackers(case).iter().enumerate() {
+            for l in 0..comps[c].n {
+                if m & (1u64 << l) != 0 {
+                    lines.push((lay.offs[c] + l, x));
+                }
+            }
+        }
+    }
     lines
+}
+
+/// The arguments attacked by a set, inside one component.
+fn targets_in(g: &AbsGraph, set: u64) -> u64 {
+    g.att.iter().filter(|(a, _)| set & (1u64 << *a) != 0).fold(0u64, |m, (_, b)| m | (1u64 << *b))
+}
+
+/// Per real component, the mask of the attackers of the gate argument (empty without a gate).
+pub fn gate_attackers(case: &CompositeCase) -> Vec<u64> {
+    if !case.gated() {
+        return vec![];
+    }
+    let comps = all_comps(case);
+    let fams = component_fams(case);
+    let mut out = vec![];
+    for (c, f) in fams.iter().enumerate() {
+        let g = &comps[c];
+        let full: u64 = if g.n >= 64 { u64::MAX } else { (1u64 << g.n) - 1 };
+        let (mode, pick) = case.gate[c % case.gate.len()];
+        let pr = f.exts(Sem::PR);
+        let mut m = match mode % 3 {
+            0 => {
+                let mut z = (pick as u64 + 1).wrapping_mul(0x9E37_79B9_7F4A_7C15) ^ (c as u64).wrapping_mul(0xD6E8_FEB8_6659_FD93);
+                z ^= z >> 29;
+                z = z.wrapping_mul(0xBF58_476D_1CE4_E5B9);
+                z ^= z >> 32;
+                z & full
+            }
+            1 => targets_in(g, pr[idx(pick, pr.len())]),
+            _ => {
+                let fam = if f.knows(Sem::STG) { f.exts(Sem::STG) } else { pr.clone() };
+                full & !fam[idx(pick, fam.len())]
+            }
+        };
+        if m == 0 && g.n > 0 {
+            m = 1u64 << idx(pick, g.n);
+        }
+        out.push(m);
+    }
+    out
 }
 
 pub fn text(case: &CompositeCase) -> String {
     let lay = layout(case);
-    let mut lines: Vec<(usize, usize)> = vec![];
-    let comps = all_comps(case);
-    for (c, g) in comps.iter().enumerate() {
-        for (a, b) in &g.att {
-            lines.push((lay.offs[c] + *a as usize, lay.offs[c] + *b as usize));
-        }
-    }
-    if case.hub > 0 {
-        let h = lay.offs[comps.len() - 1] + 1;
-        for (c, g) in comps.iter().enumerate().take(comps.len() - 1) {
-            if g.n > 0 {
-                lines.push((h, lay.offs[c] + (case.hub as usize * 7 + c * 3) % g.n));
-            }
-        }
-    }
+    let mut lines: Vec<(usize, usize)> = attack_nodes(case);
     for d in &case.dup {
         if !lines.is_empty() {
             let x = lines[idx(*d, lines.len())];
@@ -237,9 +290,45 @@ pub struct Reference {
     pub fams: Vec<CompFams>,
     /// does the whole framework have an extension under ST?
     pub has_stable: bool,
+    /// with a gate: the attackers of x per real component and the real components' graphs
+    pub gate_att: Vec<u64>,
+    pub graphs: Vec<AbsGraph>,
+    pub is_gated: bool,
 }
 
-pub fn reference(case: &CompositeCase) -> Reference {
+impl Reference {
+    pub fn gated(&self) -> bool {
+        self.is_gated
+    }
+    /// Index of the gate argument's own one-argument component.
+    pub fn x_comp(&self) -> usize {
+        self.fams.len() - 1
+    }
+    /// Does the choice `e` in component `c` allow x in the extension? x attacks nothing, so the rest of the
+    /// framework is unaffected by it. Under the admissibility-based semantics (complete extensions) x is in
+    /// exactly when it is defended: each of its attackers is attacked by the set. Under stage semantics x is
+    /// in exactly when none of its attackers is: a conflict-free set without attacker of x and without x is
+    /// strictly dominated (in range) by the same set plus x.
+    pub fn allows_x(&self, sem: Sem, c: usize, e: u64) -> bool {
+        if sem == Sem::STG {
+            self.gate_att[c] & e == 0
+        } else {
+            self.gate_att[c] & !targets_in(&self.graphs[c], e) == 0
+        }
+    }
+    /// x's membership in the product extension made of `masks` (one per real component).
+    pub fn x_in(&self, sem: Sem, masks: &[u64]) -> bool {
+        (0..self.gate_att.len()).all(|c| self.allows_x(sem, c, masks[c]))
+    }
+    /// Number of product extensions (saturating): what an enumeration may have to walk through.
+    pub fn n_products(&self, sem: Sem) -> usize {
+        let real = if self.gated() { self.fams.len() - 1 } else { self.fams.len() };
+        self.fams[..real].iter().filter(|f| f.knows(sem)).fold(1usize, |p, f| p.saturating_mul(f.exts(sem).len().max(1)))
+    }
+}
+
+/// Families of the real components (hub and gate excluded).
+fn component_fams(case: &CompositeCase) -> Vec<CompFams> {
     let mut fams: Vec<CompFams> = vec![];
     for g in &case.comps {
         let f = Fams::new(&G::new(g.n, &g.att_usize()));
@@ -251,18 +340,42 @@ pub fn reference(case: &CompositeCase) -> Reference {
         let co = closed_exts(*k, *sz, Sem::CO).unwrap();
         fams.push(CompFams { by_sem, co });
     }
+    fams
+}
+
+pub fn reference(case: &CompositeCase) -> Reference {
+    let mut fams: Vec<CompFams> = component_fams(case);
     if case.hub > 0 {
         // u -> h : {u} is the unique extension of every semantics
         fams.push(CompFams { by_sem: ALL_SEMS.iter().map(|_| Some(vec![1u64])).collect(), co: vec![1] });
     }
     let has_stable = fams.iter().all(|f| !f.exts(Sem::ST).is_empty());
-    Reference { fams, has_stable }
+    let gate_att = gate_attackers(case);
+    let mut graphs = vec![];
+    if case.gated() {
+        graphs = all_comps(case);
+        graphs.pop();
+        // x's own component: both memberships pass the per-component test, the rule decides
+        fams.push(CompFams { by_sem: ALL_SEMS.iter().map(|_| Some(vec![0u64, 1])).collect(), co: vec![0, 1] });
+    }
+    Reference { fams, has_stable, gate_att, graphs, is_gated: case.gated() }
 }
 
 /// The semantics this case can be judged under: STG is skipped with the hub and with odd cycles.
 pub fn judged_sems(case: &CompositeCase, r: &Reference) -> Vec<Sem> {
-    ALL_SEMS.iter().copied().filter(|s| (case.hub == 0 || *s != Sem::STG) && r.fams.iter().all(|f| f.knows(*s))).collect()
+    ALL_SEMS
+        .iter()
+        .copied()
+        .filter(|s| (case.hub == 0 || *s != Sem::STG) && r.fams.iter().all(|f| f.knows(*s)))
+        // with a gate the semi-stable extensions are the products only when a stable extension exists
+        // (then SST = ST); enumerations over more than GATE_PRODUCT_LIMIT extensions of one connected
+        // component are legitimately long and are left out
+        .filter(|s| !r.gated() || *s != Sem::SST || r.has_stable)
+        .filter(|s| !r.gated() || matches!(s, Sem::GR | Sem::CO | Sem::ST) || r.n_products(*s) <= GATE_PRODUCT_LIMIT)
+        .collect()
 }
+
+pub const GATE_PRODUCT_LIMIT: usize = 3_000;
 
 /// Projects a returned set on every component; Err if a member is foreign or listed twice.
 fn project<T: LabelType>(ext: &Ext<T>, af: &AAFramework<T>, index: &std::collections::HashMap<String, usize>, lay: &Layout, ncomp: usize) -> Result<Vec<u64>, String> {
@@ -297,6 +410,9 @@ fn run_generic<T: LabelType>(which: Which, case: &CompositeCase, af: &AAFramewor
     };
     let queried: Vec<usize> = {
         let mut q: Vec<usize> = case.queried.iter().map(|x| idx(*x, lay.n)).collect();
+        if r.gated() {
+            q.push(lay.offs[r.x_comp()]);
+        }
         q.sort();
         q.dedup();
         q
@@ -341,6 +457,12 @@ fn run_generic<T: LabelType>(which: Which, case: &CompositeCase, af: &AAFramewor
                             ));
                         }
                     }
+                    if r.gated() && (masks[r.x_comp()] == 1) != r.x_in(sem, &masks) {
+                        return Err(Failure::new(
+                            format!("{}/not-an-extension/gate-argument-wrongly-{}", sig, if masks[r.x_comp()] == 1 { "in" } else { "out" }),
+                            ctx(),
+                        ));
+                    }
                 }
             }
         }
@@ -359,11 +481,22 @@ fn run_generic<T: LabelType>(which: Which, case: &CompositeCase, af: &AAFramewor
                 let (c, l) = lay.comp_of[a];
                 let bit = 1u64 << l;
                 let fam = fam_of(sem, c);
-                let expected = if q == Q::DC {
+                let expected = if r.gated() && c == r.x_comp() {
+                    // x is in a product extension exactly when every component's choice allows it
+                    let real = r.x_comp();
+                    if q == Q::DC {
+                        exists(sem) && (0..real).all(|cc| fam_of(sem, cc).iter().any(|e| r.allows_x(sem, cc, *e)))
+                    } else {
+                        !exists(sem) || (0..real).all(|cc| fam_of(sem, cc).iter().all(|e| r.allows_x(sem, cc, *e)))
+                    }
+                } else if q == Q::DC {
                     exists(sem) && fam.iter().any(|e| e & bit != 0)
                 } else {
                     !exists(sem) || fam.iter().all(|e| e & bit != 0)
                 };
+                if r.gated() && c == r.x_comp() {
+                    rec.class(&format!("gate-argument-{}-{}-{}", q.name(), if expected { "yes" } else { "no" }, if r.n_products(sem) >= 200 { "among-200+-extensions" } else { "among-fewer-extensions" }));
+                }
                 let lab = mk_label(a);
                 let certs: Vec<bool> = match which {
                     Which::C04 => vec![true],
@@ -410,6 +543,13 @@ fn run_generic<T: LabelType>(which: Which, case: &CompositeCase, af: &AAFramewor
                             if (q == Q::DC) != (masks[c] & bit != 0) {
                                 return Err(Failure::new(format!("{}/certificate-membership-wrong", sig), format!("argument {}; {}", lab, ctx())));
                             }
+                            // the witness of DC-PR is a complete extension: same rule for x
+                            if r.gated() && (masks[r.x_comp()] == 1) != r.x_in(sem, &masks) {
+                                return Err(Failure::new(
+                                    format!("{}/certificate-not-an-extension/gate-argument-wrongly-{}", sig, if masks[r.x_comp()] == 1 { "in" } else { "out" }),
+                                    format!("argument {}; {}", lab, ctx()),
+                                ));
+                            }
                         }
                     }
                 }
@@ -433,6 +573,9 @@ pub fn run(which: Which, case: &CompositeCase, rec: &mut Rec) -> CheckResult {
     rec.class(&format!("composite-components-{:02}+", (case.comps.len() / 5) * 5));
     if case.hub > 0 {
         rec.class("composite-single-connected-component-through-defeated-hub");
+    }
+    if case.gated() {
+        rec.class("composite-single-connected-component-through-gate-argument");
     }
     for (k, sz) in &case.closed {
         let (k, n) = closed_norm(*k, *sz);
@@ -490,7 +633,12 @@ fn lists_generic<T: LabelType>(case: &CompositeCase, af: &AAFramework<T>, mk_lab
     let index: std::collections::HashMap<String, usize> = (0..lay.n).map(|i| (label_of(case, &lay, i), i)).collect();
     let sems: Vec<Sem> = judged_sems(case, &r);
     // the list: the queried picks in the given order (repetitions kept), at most 3
-    let list: Vec<usize> = case.queried.iter().take(3).map(|x| idx(*x, lay.n)).collect();
+    let mut list: Vec<usize> = case.queried.iter().take(3).map(|x| idx(*x, lay.n)).collect();
+    if r.gated() && case.queried.first().map(|q| q % 2 == 1).unwrap_or(false) {
+        // the gate argument is listed in every other gated case
+        let pos = list.len() - 1;
+        list[pos] = lay.offs[r.x_comp()];
+    }
     let labels: Vec<T> = list.iter().map(|i| mk_label(*i)).collect();
     let refs: Vec<&T> = labels.iter().collect();
     let spans = {
@@ -518,7 +666,23 @@ fn lists_generic<T: LabelType>(case: &CompositeCase, af: &AAFramework<T>, mk_lab
                 let (c, l) = lay.comp_of[*i];
                 lmask[c] |= 1u64 << l;
             }
-            let expected = if q == Q::DC {
+            let expected = if r.gated() {
+                // the components' choices are independent and x follows from them
+                let real = r.x_comp();
+                let x_listed = lmask[real] != 0;
+                let fam = |c: usize| r.fams[c].exts(sem);
+                if q == Q::DC {
+                    exists
+                        && ((0..real).any(|c| lmask[c] != 0 && fam(c).iter().any(|e| e & lmask[c] != 0))
+                            || (x_listed && (0..real).all(|c| fam(c).iter().any(|e| r.allows_x(sem, c, *e)))))
+                } else {
+                    // a product extension avoiding the whole list: every component avoids its listed arguments
+                    // and, when x is listed, at least one of these choices keeps x out
+                    let all_avoid = (0..real).all(|c| fam(c).iter().any(|e| e & lmask[c] == 0));
+                    let one_blocks = (0..real).any(|c| fam(c).iter().any(|e| e & lmask[c] == 0 && !r.allows_x(sem, c, *e)));
+                    !exists || !(all_avoid && (!x_listed || one_blocks))
+                }
+            } else if q == Q::DC {
                 exists && (0..ncomp).any(|c| lmask[c] != 0 && r.fams[c].exts(sem).iter().any(|x| x & lmask[c] != 0))
             } else {
                 !exists || (0..ncomp).any(|c| lmask[c] != 0 && r.fams[c].exts(sem).iter().all(|x| x & lmask[c] != 0))
@@ -567,6 +731,9 @@ fn lists_generic<T: LabelType>(case: &CompositeCase, af: &AAFramework<T>, mk_lab
                             meets = true;
                         }
                     }
+                    if r.gated() && (masks[r.x_comp()] == 1) != r.x_in(sem, &masks) {
+                        return Err(Failure::new(format!("{}/certificate-not-an-extension/gate-argument", sig), ctx()));
+                    }
                     if (q == Q::DC) != meets {
                         return Err(Failure::new(format!("{}/certificate-membership-wrong", sig), ctx()));
                     }
@@ -603,6 +770,79 @@ pub fn self_test_closed() -> Result<usize, String> {
                     checked += 1;
                 }
             }
+        }
+    }
+    Ok(checked)
+}
+
+/// The gate rule (`Reference::allows_x`) and the product claim are compared with brute force on the
+/// assembled framework for a fixed family of small gated cases (run at start-up): all pairs and a fixed
+/// pseudo-random sample of triples of components with <= 3 arguments, every gate mode, plus closed forms.
+pub fn self_test_gate() -> Result<usize, String> {
+    let small: Vec<AbsGraph> = (1..=3usize).flat_map(crate::gen::all_graphs).collect();
+    let mut z: u64 = 0x1234_5678_9ABC_DEF1;
+    let mut next = move || {
+        z ^= z << 13;
+        z ^= z >> 7;
+        z ^= z << 17;
+        z
+    };
+    let mut checked = 0usize;
+    for round in 0..1_500 {
+        let k = 2 + (next() % 2) as usize;
+        let mut comps: Vec<AbsGraph> = (0..k).map(|_| small[(next() % small.len() as u64) as usize].clone()).collect();
+        let closed: Vec<(u8, u8)> = if round % 5 == 0 {
+            comps.truncate(1);
+            vec![((next() % 4) as u8, (next() % 3) as u8)]
+        } else {
+            vec![]
+        };
+        let gate: Vec<(u8, u16)> = (0..3).map(|_| ((next() % 3) as u8, next() as u16)).collect();
+        let case = CompositeCase { comps, order_keys: vec![0], apx: false, queried: vec![], enc_pick: 0, dup: vec![], hub: 0, closed, gate };
+        let lay = layout(&case);
+        if lay.n > 14 {
+            continue;
+        }
+        let r = reference(&case);
+        let att = attack_nodes(&case);
+        let g = G::new(lay.n, &att);
+        let brute = Fams::new(&g);
+        let real = r.x_comp();
+        for sem in ALL_SEMS {
+            if !r.fams.iter().all(|f| f.knows(sem)) || (sem == Sem::SST && !r.has_stable) {
+                continue;
+            }
+            // all products, x decided by the rule
+            let mut products: Vec<(Vec<u64>, u32)> = vec![(vec![], 0)];
+            for c in 0..real {
+                let mut nextp = vec![];
+                for (masks, whole) in &products {
+                    for e in r.fams[c].exts(sem) {
+                        let mut m = masks.clone();
+                        m.push(e);
+                        let mut w = *whole;
+                        for l in 0..64 {
+                            if e & (1u64 << l) != 0 {
+                                w |= 1u32 << (lay.offs[c] + l);
+                            }
+                        }
+                        nextp.push((m, w));
+                    }
+                }
+                products = nextp;
+            }
+            let mut claimed: Vec<u32> = products
+                .iter()
+                .map(|(m, w)| if r.x_in(sem, m) { w | (1u32 << lay.offs[real]) } else { *w })
+                .collect();
+            let mut b = brute.exts(sem);
+            claimed.sort();
+            claimed.dedup();
+            b.sort();
+            if claimed != b {
+                return Err(format!("gate rule under {}: claimed {:?}, brute force {:?}; case {:?} attacks {:?}", sem.name(), claimed, b, case, att));
+            }
+            checked += 1;
         }
     }
     Ok(checked)
